@@ -2,6 +2,8 @@
 package c06
 
 import (
+	"encoding/asn1"
+	"crypto/x509/pkix"
 	"bytes"
 	"crypto"
 	"crypto/ecdsa"
@@ -123,6 +125,8 @@ type Case struct {
 	// SlotDates: dates carried by the slot certificate itself (must not influence the chain check):
 	// zero | now | past (36 h ago, inside an expired device certificate's window) | future (in 36 h)
 	SlotDates string
+	// DevExt: extra extensions of the device certificate (see deviceCertExt)
+	DevExt string
 }
 
 var (
@@ -154,7 +158,13 @@ func rootCert(name string) *x509.Certificate {
 }
 
 func deviceCert(dev, issuer, validity string) *x509.Certificate {
-	key := dev + "/" + issuer + "/" + validity
+	return deviceCertExt(dev, issuer, validity, "")
+}
+
+// deviceCertExt: ext adds extensions to the device certificate: yubico-critical | yubico-plain |
+// other-critical | yubico+other-critical ("" = none).
+func deviceCertExt(dev, issuer, validity, ext string) *x509.Certificate {
+	key := dev + "/" + issuer + "/" + validity + "/" + ext
 	certMu.Lock()
 	if c, ok := certCache[key]; ok {
 		certMu.Unlock()
@@ -168,6 +178,20 @@ func deviceCert(dev, issuer, validity string) *x509.Certificate {
 		spec.NotBefore, spec.NotAfter = now.Add(-48*time.Hour), now.Add(-24*time.Hour)
 	case "future":
 		spec.NotBefore, spec.NotAfter = now.Add(24*time.Hour), now.Add(48*time.Hour)
+	}
+	if ext != "" {
+		spec.Mutate = func(tpl *x509.Certificate) {
+			yubico := pkix.Extension{Id: asn1.ObjectIdentifier{1, 3, 6, 1, 4, 1, 41482, 3, 3}, Value: []byte{5, 4, 3}, Critical: ext != "yubico-plain"}
+			other := pkix.Extension{Id: asn1.ObjectIdentifier{1, 2, 3, 4, 5}, Value: []byte{5, 0}, Critical: true}
+			switch ext {
+			case "yubico-critical", "yubico-plain":
+				tpl.ExtraExtensions = append(tpl.ExtraExtensions, yubico)
+			case "other-critical":
+				tpl.ExtraExtensions = append(tpl.ExtraExtensions, other)
+			case "yubico+other-critical":
+				tpl.ExtraExtensions = append(tpl.ExtraExtensions, yubico, other)
+			}
+		}
 	}
 	if issuer == "selftwin" {
 		spec.CN = "verif rootA" // self-signed under root A's name
@@ -202,6 +226,12 @@ func genCase(t *rapid.T) Case {
 		c.Algo = rapid.IntRange(3, 6).Draw(t, "focusAlgo")
 	}
 	c.SlotDates = rapid.SampledFrom([]string{"zero", "now", "past", "future"}).Draw(t, "slotDates")
+	c.DevExt = rapid.SampledFrom([]string{"", "", "", "", "", "", "yubico-plain", "yubico-critical", "yubico-critical", "other-critical", "yubico+other-critical"}).Draw(t, "devExt")
+	if c.DevExt != "" && c.DevExt != "yubico-plain" && rapid.Bool().Draw(t, "extBadChain") {
+		// a critical extension on a device certificate whose chain or dates are bad
+		c.Issuer = rapid.SampledFrom([]string{"self", "foreign", "rootA", "rootB"}).Draw(t, "extIssuer")
+		c.Validity = rapid.SampledFrom([]string{"expired", "future", "ok"}).Draw(t, "extValidity")
+	}
 	c.TBS = rapid.SliceOfN(rapid.Byte(), 1, 120).Draw(t, "tbs")
 	h, _ := labelHash(x509.SignatureAlgorithm(c.Algo))
 	if h == "" || h == "any" {
@@ -359,7 +389,10 @@ func exec(c Case) (vh.Outcome, error) {
 	if err != nil {
 		return out, nil
 	}
-	f9 := deviceCert(c.DevKey, c.Issuer, c.Validity)
+	f9 := deviceCertExt(c.DevKey, c.Issuer, c.Validity, c.DevExt)
+	if c.DevExt != "" {
+		out.Classes = append(out.Classes, "devext="+c.DevExt)
+	}
 	pool := x509.NewCertPool()
 	inPool := false
 	for _, r := range c.Pool {
@@ -405,13 +438,15 @@ func exec(c Case) (vh.Outcome, error) {
 	if accepted && !want {
 		return out, vh.Errf("Attest accepted: label %v, device key %s, issuer %s (in pool: %v), validity %s, kind %s; chain valid=%v, encoded message acceptable=%v\n EM seen: %x", algo, c.DevKey, c.Issuer, inPool, c.Validity, c.Kind, chainOK, sigOK, seen)
 	}
-	if !accepted && want && iff {
+	// an unknown critical extension may (and on the pinned tree does) make the verifier refuse a device
+	// certificate that chains correctly: only the "accepted => valid" direction is judged then
+	if critical := c.DevExt != "" && c.DevExt != "yubico-plain"; !accepted && want && iff && !critical {
 		return out, vh.Errf("Attest refused a valid attestation (%v): label %v, device key %s, kind %s form %d hash %s\n EM seen: %x", aerr, algo, c.DevKey, c.Kind, c.Form, c.EMHash, seen)
 	}
 	return out, nil
 }
 
-const rule = "the harness owns the device RSA private key and signs arbitrary encoded messages (sig = EM^d mod N): correct form 1 (with NULL) and form 2 (without) for SHA-1/256/384/512; one byte replaced at a position drawn per class (00, 01, first / last / inner padding byte, separator, identifier, digest); shortened padding with shifted tail and garbage; short EM with 0..7 padding bytes; identifier of another hash; digest of other data; single-bit flips of signature and body; arbitrary signature bytes; genuine ECDSA signature under a non-RSA device key. Crossed with every signature-algorithm label 0..20, device key sizes 1024/1025/1031/1536/2047/2048 (3072/4096 in thorough), device certificate issued by a pool root / by a CA outside the pool / self-signed / expired / not yet valid, pools of 1..3 roots, slot certificate dated now / inside an expired device certificate's window / in the future / not at all (the chain must be judged at the current time). Oracle: the harness recomputes sig^e mod N itself; for *WithRSA SHA labels Attest = nil iff chain valid now and EM is form 1 or form 2 of the label's digest; DSA/ECDSA labels only-if; everything else must be refused. Non-trivial: every case except 'everything valid, form 1'."
+const rule = "the harness owns the device RSA private key and signs arbitrary encoded messages (sig = EM^d mod N): correct form 1 (with NULL) and form 2 (without) for SHA-1/256/384/512; one byte replaced at a position drawn per class (00, 01, first / last / inner padding byte, separator, identifier, digest); shortened padding with shifted tail and garbage; short EM with 0..7 padding bytes; identifier of another hash; digest of other data; single-bit flips of signature and body; arbitrary signature bytes; genuine ECDSA signature under a non-RSA device key. Crossed with every signature-algorithm label 0..20, device key sizes 1024/1025/1031/1536/2047/2048 (3072/4096 in thorough), device certificate issued by a pool root / by a CA outside the pool / self-signed / expired / not yet valid, optionally carrying a vendor extension (Yubico arc, plain or critical) or another unknown critical extension (then only 'accepted => valid chain' is judged), pools of 1..3 roots, slot certificate dated now / inside an expired device certificate's window / in the future / not at all (the chain must be judged at the current time). Oracle: the harness recomputes sig^e mod N itself; for *WithRSA SHA labels Attest = nil iff chain valid now and EM is form 1 or form 2 of the label's digest; DSA/ECDSA labels only-if; everything else must be refused. Non-trivial: every case except 'everything valid, form 1'."
 
 func TestC06Attest(t *testing.T) {
 	vh.Run(t, vh.Spec[Case]{Property: "C06", Name: "TestC06Attest", Rule: rule, Gen: genCase, Exec: exec})
